@@ -1399,11 +1399,12 @@ class TermCanvas(Canvas):
             1 -> erase from start to cursor.
             2 -> erase the whole display.
         """
+        # erasing is not confined to the scrolling region, not even in origin mode
         if mode == 0:
-            self.erase(self.term_cursor, (self.width - 1, self.height - 1))
+            self.erase(self.term_cursor, (self.width - 1, self.height - 1, True))
         if mode == 1:
             # up to and including the cursor position
-            self.erase((0, 0), self.term_cursor)
+            self.erase((0, 0, True), self.term_cursor)
         elif mode == 2:
             self.clear(cursor=self.term_cursor)
 
